@@ -24,5 +24,5 @@ BadCases == {i \in Group(g) : ~CaseOK(Cases[i])}
 AllOK == g >= 0 => BadCases = {}
 Report == g >= 0 => PrintT(<<"ROBUST", g, Cardinality({i \in Group(g) : Robust(Cases[i])}),
                              Cardinality({i \in Group(g) : Robust(Cases[i]) /\ Exact1(Cases[i])})>>)
-ReportBad == g >= 0 => (BadCases = {} \/ PrintT(<<"BAD", BadCases>>))
+ReportBad == g >= 0 => (BadCases = {} \/ PrintT(ToJson([k |-> "BAD", s |-> BadCases])))   \* JSON: one line
 =============================================================================
